@@ -60,6 +60,11 @@ const (
 	EvRunP  = "run-p"
 	EvFault = "fault" // replace/add an entry by a faulted one
 	EvHeal  = "heal"  // restore an entry to its healthy content
+	// EvEdit: the user edits some of the "@tag" comments of a Go file AS IT IS NOW on disk (a value changed, an item added,
+	// dropped or moved) - after earlier runs the file then mixes fields whose literal is up to date with fields that are
+	// pending again, a state neither a fresh nor a healed file is ever in (seeded C07u skipped up-to-date fields and leaked
+	// their annotation into the next pending one)
+	EvEdit = "edit"
 )
 
 type Event struct {
@@ -71,6 +76,7 @@ type Event struct {
 	Stdio string `json:"stdio,omitempty"` // "" = stdout/stderr are pipes, "pty" = a terminal, "null" = /dev/null (a character device that swallows the panic text: a crash is then known by exit status 2)
 	TZ    string `json:"tz,omitempty"`    // TZ of the process ("" = unset)
 	At    int64  `json:"at,omitempty"`    // > 0: the invocation happens at this Unix time (the tool is then the build whose clock calls are redirected, see ClockCLI)
+	Arg   int    `json:"arg,omitempty"`   // edit: decides which annotations are edited and how
 }
 
 // ClockCLI is the path of a second build of the tool, from a copy of the tree in which time.Now / Since / Until / Sleep are
@@ -545,6 +551,27 @@ func (w *World) Step(idx int, ev *Event) *detsim.Violation {
 		delete(w.processed, ev.Target)
 		w.Probes.Add("healed_then_processed_candidates", 1)
 		return nil
+	case EvEdit:
+		p := w.path(ev.Target)
+		st, err := os.Lstat(p)
+		if err != nil || !st.Mode().IsRegular() || !strings.HasSuffix(ev.Target, ".go") || w.perm[ev.Target] != "" {
+			return nil
+		}
+		b, err := os.ReadFile(p)
+		if err != nil || !parses(b) {
+			return nil
+		}
+		nb, n := EditAnnotations(string(b), ev.Arg)
+		if n == 0 || !parses([]byte(nb)) {
+			return nil
+		}
+		os.WriteFile(p, []byte(nb), st.Mode().Perm())
+		w.Faults.Add("event_edit_of_annotations", 1)
+		w.Probes.Add("annotations_edited", int64(n))
+		if _, ok := w.processed[ev.Target]; ok {
+			w.Probes.Add("edited_after_it_had_been_processed", 1)
+		}
+		return nil
 	}
 	before := w.snapshot()
 	inScope := map[string]bool{}
@@ -711,6 +738,59 @@ func (w *World) Step(idx int, ev *Event) *detsim.Violation {
 		w.processed[base] = sha256.Sum256([]byte(got))
 	}
 	return nil
+}
+
+var annRe = regexp.MustCompile(`^(.*//.*@tag )((?:[^\s:"]+:"[^"]*" *)+)$`)
+var annItemRe = regexp.MustCompile(`[^\s:"]+:"[^"]*"`)
+
+// EditAnnotations edits about half of the line-comment annotations of a file (at least one): a value gets a letter more, an
+// item is added, the last item is dropped, or the first two items change places. It returns the new text and the number of
+// annotations edited.
+func EditAnnotations(content string, arg int) (string, int) {
+	lines := strings.Split(content, "\n")
+	var idx []int
+	for i, l := range lines {
+		if annRe.MatchString(strings.TrimRight(l, "\r")) {
+			idx = append(idx, i)
+		}
+	}
+	if len(idx) == 0 {
+		return content, 0
+	}
+	r := detsim.NewRand(uint64(arg)*0x9E3779B97F4A7C15 + 1)
+	n := 0
+	for k, i := range idx {
+		if !r.Chance(1, 2) && !(n == 0 && k == len(idx)-1) {
+			continue
+		}
+		cr := ""
+		l := lines[i]
+		if strings.HasSuffix(l, "\r") {
+			l, cr = l[:len(l)-1], "\r"
+		}
+		m := annRe.FindStringSubmatch(l)
+		items := annItemRe.FindAllString(m[2], -1)
+		switch op := r.Intn(4); {
+		case op == 0 || len(items) < 2 && op >= 2:
+			it := items[r.Intn(len(items))]
+			j := -1
+			for x := range items {
+				if items[x] == it {
+					j = x
+				}
+			}
+			items[j] = it[:len(it)-1] + "e\""
+		case op == 1:
+			items = append(items, fmt.Sprintf("added%d:\"%d\"", r.Intn(3), r.Intn(100)))
+		case op == 2:
+			items = items[:len(items)-1]
+		default:
+			items[0], items[1] = items[1], items[0]
+		}
+		lines[i] = m[1] + strings.Join(items, " ") + cr
+		n++
+	}
+	return strings.Join(lines, "\n"), n
 }
 
 func sortedKeys(m map[string]bool) []string {
